@@ -182,8 +182,8 @@ Proof. cbn. repeat split; reflexivity. Qed.
 Theorem process_chunk_rfc h chunk : wf_regs h ->
   process_chunk h chunk = md4_compress h (words_le chunk).
 Proof.
-  intros Hwf. unfold process_chunk, md4_compress.
-  set (X := words_le chunk).
+  intros Hwf. destruct h as [[[h0 h1] h2] h3]. unfold process_chunk, md4_compress.
+  set (X := words_le chunk). set (h := (h0, h1, h2, h3)) in *.
   rewrite go_schedule_rfc. unfold rfc_schedule. rewrite !fold_left_app.
   assert (P0 : phase_ok 0) by (left; reflexivity).
   destruct (round_eq FF md4_F 0 X ltac:(left; auto) md4_round1 0 h P0 Hwf) as [E1 W1].
@@ -195,7 +195,6 @@ Proof.
   destruct (round_eq HH md4_H 0x6ED9EBA1 X ltac:(right; right; auto) md4_round3 0 _ P0 W2) as [E3 W3].
   rewrite E3.
   change (fold_left (fun q _ => nextp q) md4_round3 0) with 0.
-  destruct h as [[[h0 h1] h2] h3].
   destruct (fold_left (md4_op md4_H 0x6ED9EBA1 X) md4_round3 _) as [[[a b] c] d].
   cbn [unrot]. rewrite (N.add_comm h0), (N.add_comm h1), (N.add_comm h2), (N.add_comm h3). reflexivity.
 Qed.
